@@ -31,6 +31,10 @@ T = {
          "bit tokens compared as opaque strings", "DESIGN.md §5 C13"),
  "C16": ("VCell.SafetyBound model-checked; lattice replay: reported radius >= 2*exact distance to farthest point and >= distance to every neighbour with a face; every recorded termination validated by VCellTrace; pipeline F: radius vs the cell's own vertices on many-faced cells",
          "add-a-far-generator relation not yet exercised", "DESIGN.md §5 C16"),
+ "C17": ("VNN (best-first traversal of every small r-tree shape over small point sets, 3^d shifted copies, all pop orders among equal keys: LowerBound, Sorted, NoDup, SelfFirst, PrefixOfAll, Complete) model-checked; candidate streams recorded through the hook verif::nn_sequence validated by VNNTrace with exact integer distances",
+         "implementation side uses lattice inputs (incl. 10^3-point lattices, prefixes) so that TLC can recompute distances exactly", "DESIGN.md §5 C17"),
+ "C18": ("VCycle + VCellImpl (line-by-line transcription of SimpleCycle and compute_boundary) model-checked inside the cell machine: for every reachable cell and next plane, every order of the removed vertices (exhaustive up to 6/7) and rotations: never stuck, cycle = declarative boundary (ImplOK); CLIP cases replayed through verif::clip_cell under permutations; library-built cells (up to ~90 planes) re-clipped through verif::clip_existing under permutations",
+         "orders above the exhaustive bound are sampled (cyclic shifts); ties with inexact snapping only required to give closed polytopes", "DESIGN.md §5 C18"),
 }
 
 checks = []
@@ -55,7 +59,7 @@ man = {
  "hooks": {"guard": "meshless_voro_verif",
            "enable": "--cfg meshless_voro_verif via /verif/harness/.cargo/config.toml (the harness crate depends on /repo by path and is rebuilt from its working tree by every check)",
            "baseline_off_cmd": "cd /repo && cargo test --workspace --no-fail-fast --offline",
-           "source_commits": ["de75022"], "add_only": True},
+           "source_commits": ["de75022", "5f40ea1"], "add_only": True},
  "engines": [{"name": "vv", "path": "/verif/vv", "serves_properties": sorted(vvchecks.CHECKS),
               "kind_free_text": "python driver (vv, vvlib.py, vvchecks.py): TLC on /verif/spec/*.tla + Rust conformance harness /verif/harness (spec->impl replay, impl->spec trace validation)"}],
  "checks": checks,
